@@ -71,7 +71,7 @@ type Directory struct {
 	client *tls.Config
 	server *tls.Config
 
-	mu                 sync.Mutex
+	mu                 sync.RWMutex // protects the fields below: handlers read them, Set* change them
 	users              []*gldap.Entry
 	groups             []*gldap.Entry
 	tokenGroups        map[string][]*gldap.Entry // string == SID
@@ -201,6 +201,8 @@ func (d *Directory) handleBind(t TestingT) func(w *gldap.ResponseWriter, r *glda
 		defer func() {
 			_ = w.Write(resp)
 		}()
+		d.mu.RLock()
+		defer d.mu.RUnlock()
 		m, err := r.GetSimpleBindMessage()
 		if err != nil {
 			d.logger.Error("not a simple bind message", "op", op, "err", err)
@@ -224,8 +226,6 @@ func (d *Directory) handleBind(t TestingT) func(w *gldap.ResponseWriter, r *glda
 				if len(values) > 0 && string(m.Password) == values[0] {
 					resp.SetResultCode(gldap.ResultSuccess)
 					if d.controls != nil {
-						d.mu.Lock()
-						defer d.mu.Unlock()
 						resp.SetControls(d.controls...)
 					}
 					return
@@ -300,6 +300,8 @@ func (d *Directory) handleSearchGeneric(t TestingT) func(w *gldap.ResponseWriter
 			return
 		}
 		d.logSearchRequest(m)
+		d.mu.RLock()
+		defer d.mu.RUnlock()
 
 		filter := m.Filter
 
@@ -377,8 +379,6 @@ func (d *Directory) handleSearchGeneric(t TestingT) func(w *gldap.ResponseWriter
 				}
 			}
 			if d.controls != nil {
-				d.mu.Lock()
-				defer d.mu.Unlock()
 				res.SetControls(d.controls...)
 			}
 			res.SetResultCode(gldap.ResultSuccess)
@@ -407,6 +407,8 @@ func (d *Directory) handleSearchGroups(t TestingT) func(w *gldap.ResponseWriter,
 			return
 		}
 		d.logSearchRequest(m)
+		d.mu.RLock()
+		defer d.mu.RUnlock()
 
 		_, entries := d.findMembers(m.Filter)
 		foundEntries := len(entries)
@@ -440,8 +442,6 @@ func (d *Directory) handleSearchGroups(t TestingT) func(w *gldap.ResponseWriter,
 			d.logger.Debug("found entries", "op", op, "count", foundEntries)
 
 			if d.controls != nil {
-				d.mu.Lock()
-				defer d.mu.Unlock()
 				res.SetControls(d.controls...)
 			}
 			res.SetResultCode(gldap.ResultSuccess)
@@ -470,6 +470,8 @@ func (d *Directory) handleSearchUsers(t TestingT) func(w *gldap.ResponseWriter, 
 			return
 		}
 		d.logSearchRequest(m)
+		d.mu.RLock()
+		defer d.mu.RUnlock()
 
 		var foundEntries int
 		_, _, entries := find(d.t, m.Filter, d.users)
@@ -491,8 +493,6 @@ func (d *Directory) handleSearchUsers(t TestingT) func(w *gldap.ResponseWriter, 
 		if foundEntries > 0 {
 			d.logger.Debug("found entries", "op", op, "count", foundEntries)
 			if d.controls != nil {
-				d.mu.Lock()
-				defer d.mu.Unlock()
 				res.SetControls(d.controls...)
 				fmt.Println(d.controls)
 			}
@@ -523,6 +523,8 @@ func (d *Directory) handleModify(t TestingT) func(w *gldap.ResponseWriter, r *gl
 		}
 		d.logger.Info("modify request", "dn", m.DN)
 
+		d.mu.Lock()
+		defer d.mu.Unlock()
 		var entries []*gldap.Entry
 		_, _, entries = find(d.t, fmt.Sprintf("(%s)", m.DN), d.users)
 		if len(entries) == 0 {
@@ -536,8 +538,6 @@ func (d *Directory) handleModify(t TestingT) func(w *gldap.ResponseWriter, r *gl
 			res.SetDiagnosticMessage(fmt.Sprintf("more than one match: %d entries", len(entries)))
 			return
 		}
-		d.mu.Lock()
-		defer d.mu.Unlock()
 		e := entries[0]
 		if entries[0].Attributes == nil {
 			e.Attributes = []*gldap.EntryAttribute{}
@@ -607,6 +607,8 @@ func (d *Directory) handleAdd(t TestingT) func(w *gldap.ResponseWriter, r *gldap
 		}
 		d.logger.Info("add request", "dn", m.DN)
 
+		d.mu.Lock()
+		defer d.mu.Unlock()
 		if found, _, _ := find(d.t, fmt.Sprintf("(%s)", m.DN), d.users); found {
 			res.SetResultCode(gldap.ResultEntryAlreadyExists)
 			res.SetDiagnosticMessage(fmt.Sprintf("entry exists for DN: %s", m.DN))
@@ -617,8 +619,6 @@ func (d *Directory) handleAdd(t TestingT) func(w *gldap.ResponseWriter, r *gldap
 			attrs[a.Type] = a.Vals
 		}
 		newEntry := gldap.NewEntry(m.DN, attrs)
-		d.mu.Lock()
-		defer d.mu.Unlock()
 		d.users = append(d.users, newEntry)
 		res.SetResultCode(gldap.ResultSuccess)
 	}
@@ -646,6 +646,8 @@ func (d *Directory) handleDelete(t TestingT) func(w *gldap.ResponseWriter, r *gl
 		}
 		d.logger.Info("delete request", "dn", m.DN)
 
+		d.mu.Lock()
+		defer d.mu.Unlock()
 		_, foundAt, _ := find(d.t, fmt.Sprintf("(%s)", m.DN), d.users)
 		if len(foundAt) > 0 {
 			if len(foundAt) > 1 {
@@ -653,8 +655,6 @@ func (d *Directory) handleDelete(t TestingT) func(w *gldap.ResponseWriter, r *gl
 				res.SetDiagnosticMessage(fmt.Sprintf("more than one match: %d entries", len(foundAt)))
 				return
 			}
-			d.mu.Lock()
-			defer d.mu.Unlock()
 			d.users = append(d.users[:foundAt[0]], d.users[foundAt[0]+1:]...)
 			res.SetResultCode(gldap.ResultSuccess)
 			return
@@ -666,8 +666,6 @@ func (d *Directory) handleDelete(t TestingT) func(w *gldap.ResponseWriter, r *gl
 				res.SetDiagnosticMessage(fmt.Sprintf("more than one match: %d entries", len(foundAt)))
 				return
 			}
-			d.mu.Lock()
-			defer d.mu.Unlock()
 			d.groups = append(d.groups[:foundAt[0]], d.groups[foundAt[0]+1:]...)
 			res.SetResultCode(gldap.ResultSuccess)
 			return
@@ -840,6 +838,8 @@ func (d *Directory) ClientKey() string {
 
 // Controls returns all the current bind controls for the Directory
 func (d *Directory) Controls() []gldap.Control {
+	d.mu.RLock()
+	defer d.mu.RUnlock()
 	return d.controls
 }
 
@@ -855,6 +855,8 @@ func (d *Directory) SetControls(controls ...gldap.Control) {
 
 // Users returns all the current user entries in the Directory
 func (d *Directory) Users() []*gldap.Entry {
+	d.mu.RLock()
+	defer d.mu.RUnlock()
 	return d.users
 }
 
@@ -870,6 +872,8 @@ func (d *Directory) SetUsers(users ...*gldap.Entry) {
 
 // Groups returns all the current group entries in the Directory
 func (d *Directory) Groups() []*gldap.Entry {
+	d.mu.RLock()
+	defer d.mu.RUnlock()
 	return d.groups
 }
 
@@ -895,11 +899,15 @@ func (d *Directory) SetTokenGroups(tokenGroups map[string][]*gldap.Entry) {
 
 // TokenGroups will return the tokenGroup entries
 func (d *Directory) TokenGroups() map[string][]*gldap.Entry {
+	d.mu.RLock()
+	defer d.mu.RUnlock()
 	return d.tokenGroups
 }
 
 // AllowAnonymousBind returns the allow anon bind setting
 func (d *Directory) AllowAnonymousBind() bool {
+	d.mu.RLock()
+	defer d.mu.RUnlock()
 	return d.allowAnonymousBind
 }
 
